@@ -200,7 +200,7 @@ def scratch_dir(prefix='verif-'):
 
 def run(spec, cfg, workers=None, timeout=1200, simulate=None, depth=None, seed=None, dump=None,
         coverage=False, env=None, extra=(), deadlock=None, cwd=None, jvm=(), heap='8g', dfs=False,
-        expect_violation=False, _retry=False):
+        expect_violation=False, _retry=False, _killed=0):
     """Run TLC on spec (module name or path, relative to spec/) with cfg.  Raises TLCError on
     machinery failures; property-ish outcomes (invariant violated, deadlock) are returned."""
     cwd = cwd or SPEC_DIR
@@ -288,6 +288,14 @@ def run(spec, cfg, workers=None, timeout=1200, simulate=None, depth=None, seed=N
             return run(spec, cfg, workers=1, timeout=timeout, simulate=simulate, depth=depth, seed=seed, dump=dump,
                        coverage=coverage, env=env, extra=extra, deadlock=deadlock, cwd=cwd, jvm=jvm, heap=heap, dfs=dfs,
                        expect_violation=expect_violation, _retry=True)
+        if p.returncode in (-9, 137) and _killed < 2:
+            # the JVM was killed from outside (kernel OOM killer when the machine is shared with
+            # other memory-hungry jobs): wait, then try again with a smaller heap
+            time.sleep(30 * (_killed + 1))
+            return run(spec, cfg, workers=workers, timeout=timeout, simulate=simulate, depth=depth, seed=seed, dump=dump,
+                       coverage=coverage, env=env, extra=extra, deadlock=deadlock, cwd=cwd, jvm=jvm,
+                       heap='4g' if heap == '8g' else heap, dfs=dfs,
+                       expect_violation=expect_violation, _retry=_retry, _killed=_killed + 1)
         raise TLCError('TLC failed (rc=%s): %s\n%s' % (p.returncode, r.cmd, out[-4000:]))
     return r
 
